@@ -33,6 +33,9 @@ var confirmedCounts = map[string]map[string][2]int{ // rule -> prop -> {default,
 	"R24": {"C05": {4, 4}, "C06": {5, 5}, "C13": {2, 2}, "C15": {1, 3}},
 	"R25": {"C05": {6, 6}, "C06": {16, 16}, "C13": {9, 9}, "C15": {1, 5}},
 	"R26": {"C02": {1, 1}, "C03": {4, 4}, "C04": {3, 3}, "C05": {5, 5}, "C06": {4, 4}, "C13": {2, 2}},
+	"R27": {"C02": {3, 3}, "C03": {2, 2}, "C04": {3, 3}, "C09": {9, 9}},
+	"R28": {"C01": {3, 3}, "C06": {7, 7}},
+	"R29": {"C01": {3, 3}, "C06": {3, 3}},
 }
 
 func floorFor(rule string) func(cfg Config, prop string) int {
